@@ -31,6 +31,90 @@ class MichelsonRuntimeError(Exception):
         return f'{instruction}: {message}'
 
 
+# --- verification hook (add-only): active only when PYTEZOS_VERIF_TRACE=<ndjson path> is set at import time ---
+import os as _verif_os  # noqa: E402
+
+_VERIF_TRACE = _verif_os.environ.get('PYTEZOS_VERIF_TRACE')
+_verif_state = {'depth': 0, 'seq': 0, 'file': None}
+
+
+def _verif_snapshot(stack, context):
+    out = []
+    for item in stack.items[stack.protected :]:
+        try:
+            ty = type(item).as_micheline_expr()
+        except Exception as e:  # pragma: no cover
+            ty = {'_unrepr': type(e).__name__}
+        try:
+            val = item.to_micheline_value(mode='readable', lazy_diff=None)
+        except TypeError:
+            try:
+                val = item.to_micheline_value(mode='readable')
+            except Exception as e:
+                val = {'_unrepr': type(e).__name__}
+        except Exception as e:
+            val = {'_unrepr': type(e).__name__}
+        out.append([ty, val])
+    ctx = {}
+    for name in ('tmp_big_map_index', 'alloc_big_map_index', 'origination_index'):
+        ctx[name] = getattr(context, name, None)
+    return out, ctx
+
+
+def _verif_trace_execute(prim, wrapper):
+    """Record one ndjson event per executed instruction: after the call returned or raised (sequential
+    library: the linearisation point is the return), with the visible stack before and after."""
+    import json as _json
+
+    @wraps(wrapper)
+    def traced(*args, **kwargs):
+        if len(args) < 4 or not hasattr(args[1], 'protected'):
+            return wrapper(*args, **kwargs)
+        cls, stack, _stdout, context = args[0], args[1], args[2], args[3]
+        st = _verif_state
+        depth = st['depth']
+        try:
+            before, ctx_before = _verif_snapshot(stack, context)
+        except Exception:
+            return wrapper(*args, **kwargs)
+        st['depth'] = depth + 1
+        status, detail = 'ok', None
+        try:
+            return wrapper(*args, **kwargs)
+        except BaseException as e:
+            status, detail = 'error', [str(a)[:200] for a in getattr(e, 'args', ())]
+            raise
+        finally:
+            st['depth'] = depth
+            try:
+                after, ctx_after = _verif_snapshot(stack, context)
+                try:
+                    instr = cls.as_micheline_expr()
+                except Exception:
+                    instr = {'prim': prim}
+                st['seq'] += 1
+                ev = {
+                    'seq': st['seq'],
+                    'depth': depth,
+                    'prim': prim,
+                    'instr': instr,
+                    'before': before,
+                    'after': after,
+                    'ctx_before': ctx_before,
+                    'ctx_after': ctx_after,
+                    'status': status,
+                    'detail': detail,
+                }
+                if st['file'] is None:
+                    st['file'] = open(_VERIF_TRACE, 'a')
+                st['file'].write(_json.dumps(ev, default=str) + '\n')
+                st['file'].flush()
+            except Exception:  # the hook must never change behaviour
+                pass
+
+    return traced
+
+
 def catch(prim, func):
     @wraps(func)
     def wrapper(*args, **kwargs):
@@ -43,6 +127,8 @@ def catch(prim, func):
                 e.args = (prim, *e.args)
             raise MichelsonRuntimeError(*e.args) from e
 
+    if _VERIF_TRACE and func.__name__ == 'execute':
+        return _verif_trace_execute(prim, wrapper)
     return wrapper
 
 
